@@ -269,10 +269,22 @@ func Opt6(o dhcpv6.Option) *tree.Node {
 	return tree.N("unknown-type-" + name).U("code", uint64(o.Code())).B("data", o.ToBytes())
 }
 
+// CutV4Names applies the normalisation C06 allows (names cut to their NUL-terminated capacity)
+// to embedded DHCPv4 messages.
+var CutV4Names bool
+
 func p4canon(p *dhcpv4.DHCPv4) string {
 	e, ok := P4(p)
 	if !ok {
 		return "unrepresentable"
+	}
+	if CutV4Names {
+		if len(e.SName) > 63 {
+			e.SName = e.SName[:63]
+		}
+		if len(e.File) > 127 {
+			e.File = e.File[:127]
+		}
 	}
 	return e.Canon()
 }
